@@ -35,7 +35,10 @@ AttrPool == << <<99, 110>>,                                                   \*
                <<50, 46, 53, 46, 52, 46, 51, 59, 98, 105, 110, 97, 114, 121, 59, 120, 45, 49>>,   \* 2.5.4.3;binary;x-1
                <<97, 45, 98, 45>>,                                             \* a-b-
                <<111>>,                                                        \* o
-               <<48, 46, 48>> >>                                               \* 0.0
+               <<48, 46, 48>>,                                                 \* 0.0
+               <<67, 78>>,                                                     \* CN      (same description, other letter case)
+               <<79, 66, 74, 69, 67, 84, 67, 76, 65, 83, 83>>,                 \* OBJECTCLASS
+               <<67, 110, 59, 76, 65, 78, 71, 45, 101, 110>> >>                \* Cn;LANG-en
 RulePool == << <<99, 97, 115, 101, 69, 120, 97, 99, 116, 77, 97, 116, 99, 104>>,   \* caseExactMatch
                <<49, 46, 50, 46, 51>>,                                              \* 1.2.3
                <<50, 46, 53, 46, 49, 51, 46, 53>>,                                  \* 2.5.13.5
